@@ -1,5 +1,5 @@
-import RecipeGrid.Model.Parser
-/-! Line-protocol request served by the parser model: `(parse (s <code points>))`. -/
+import RecipeGrid.Model.Compiler
+/-! Line-protocol requests served by the parser and compiler models. -/
 namespace RG
 
 def dispatchParser : Sexp → Option Sexp
@@ -7,6 +7,22 @@ def dispatchParser : Sexp → Option Sexp
     match src.asStr? with
     | some src => some (parse src).toSexp
     | none => some (Sexp.tag "bad-request" [Sexp.atom "args"])
+  | .list [.atom "compile", srcs] =>
+    match Sexp.asList? Sexp.asStr? srcs with
+    | some srcs => some ((compile srcs).toSexp srcs)
+    | none => some (Sexp.tag "bad-request" [Sexp.atom "args"])
+  | .list [.atom "elab", srcs] =>
+    match Sexp.asList? Sexp.asStr? srcs with
+    | some srcs => some (match elabBlocks srcs with
+        | .ok (bs, _) => Sexp.tag "ok" [blocksToSexp bs]
+        | .error e => e.toSexp srcs)
+    | none => some (Sexp.tag "bad-request" [Sexp.atom "args"])
+  | .list [.atom "linecol", src, off] =>
+    match src.asStr?, off.asNat? with
+    | some src, some off =>
+      let (l, c) := offsetToLineCol src off
+      some (Sexp.list [Sexp.ofNat l, Sexp.ofNat c, Sexp.ofOpt Sexp.ofStr (extractLine src l)])
+    | _, _ => some (Sexp.tag "bad-request" [Sexp.atom "args"])
   | _ => none
 
 end RG
